@@ -50,6 +50,7 @@ def cases(tier, seed):
                'full_cost': (i // 3) % 2 == 0, 'train': (i // 5) % 2 == 0,
                'gumbel': False, 'hard': (i // 7) % 3 == 0}
         cs.append({'cfg': cfg, 'k': i % 6, 'n_opts': (i // 6) % 4, 'move_nas': i % 3 != 0,
+                   'temp_from_ckpt': (i // 4) % 2 == 0,
                    'crash': (tier == 'thorough' and i % 2 == 0) or (tier == 'quick' and i % 8 == 7),
                    'seed': seed * 104729 + i})
     return cs
@@ -89,6 +90,11 @@ def build_fresh(case, applied):
     """process B's job: fresh wrapper, same configuration through the public API"""
     m = nasfactory.make(case['cfg'])
     for o in applied:
+        # what the state_dict itself carries is state, not configuration: the MPS softmax
+        # temperature is a registered buffer of every quantizer, so in half of the MPS cases it is
+        # NOT re-applied on the fresh wrapper and must come back through load_state_dict
+        if o[0] == 'temperature' and m['kind'].startswith('mps') and case.get('temp_from_ckpt'):
+            continue
         nasfactory.apply_option(m['nas'], m['kind'], o)
     return m
 
